@@ -117,6 +117,25 @@ func Run(c *vk.Ctx) {
 		}
 		return true
 	}
+	// Family D ("diamonds"): two plain 3-frame stacks with the same root and leaf, [x y z] and [x w z] over
+	// a1 a2 b c - the smallest profiles in which a residual edge x->z (y or w hidden) coexists with another
+	// path from x to z, which is what RemoveRedundantEdges acts on.
+	sigD := []enum.Kind{enum.Sigma6[0], enum.Sigma6[1], enum.Sigma6[2], enum.Sigma6[3]}
+	for x := range sigD {
+		for y := range sigD {
+			for w := y; w < len(sigD); w++ {
+				for z := range sigD {
+					for _, vi := range []int{0, 2} {
+						if c.Mine(idx) {
+							checkProfile(c, sigD, []enum.Shape{{{x}, {y}, {z}}, {{x}, {w}, {z}}}, valueSets[vi], vi)
+							c.Count("family/diamond", 1)
+						}
+						idx++
+					}
+				}
+			}
+		}
+	}
 	if c.Thorough() {
 		// all unordered pairs in which at least one stack has 2 frames (total frames <= 5)
 		run(sigma, shapesX, true, false, []int{0, 1, 2})
